@@ -11,7 +11,7 @@ RAW = [
     ('c20_write_immediate_completed', FW), ('c20_write_immediate_dropped', FW), ('c20_write_delivered_completed', FW),
     ('c20_write_delivered_dropped', FW), ('c20_write_cancel_completed', FW), ('c20_write_cancel_dropped', FW),
     ('c20_write_cancel_cancelled', FW), ('c20_write_delivered_then_cancelled_completed', FW), ('c20_write_delivered_then_cancelled_dropped', FW), ('c20_write_dropped_inflight_completed', FW), ('c20_write_dropped_inflight_cancelled', FW),
-    ('c20_read_immediate', FR), ('c20_read_delivered', FR), ('c20_read_cancel_completed', FR), ('c20_read_cancel_cancelled', FR),
+    ('c20_read_immediate', FR), ('c20_read_delivered', FR), ('c20_read_delivered_then_cancelled', FR), ('c20_read_cancel_completed', FR), ('c20_read_cancel_cancelled', FR),
     ('c20_read_dropped_inflight_cancelled', FR), ('c20_read_dropped_inflight_completed', FR), ('c20_reader_never_read_dropped_once', FR),
 ]
 TYPED = ['c20_typed_unwritten_writer_dropped', 'c20_typed_write_dropped_unpolled', 'c20_typed_cancel_completed', 'c20_typed_cancel_dropped',
